@@ -1,8 +1,9 @@
 /-
 C18 — printed paths are valid override paths; flag directives apply in order.
-(This file: the directive queue. The path grammar is tied by correspondence.)
+(The directive queue, and the path grammar: printed paths parse back to the path they print.)
 -/
 import FiddleModel.Model.Flags
+import FiddleModel.Lemmas.PathsL
 
 namespace Fiddle
 
@@ -71,5 +72,281 @@ example : ∃ s : FlagSt (List String),
       ⟨fun e => [e], fun c a => c ++ [a], fun c e => c ++ [e]⟩ = .ok s
       ∧ s.value = some ["b", "x=1", "f", "y=2"] := by
   refine ⟨_, rfl, rfl⟩
+
+/-! ### The path grammar -/
+
+open Paths
+
+theorem pathStr_boundary (p : List Elem) (t : List Char) (h : pathStr p = .ok t) : Boundary t := by
+  cases p with
+  | nil => simp [pathStr] at h; subst h; exact .inl rfl
+  | cons e r =>
+    simp only [pathStr] at h
+    split at h
+    · rename_i a b ha hb
+      cases h
+      right
+      cases e with
+      | attr n => simp [code] at ha; subst ha; exact ⟨'.', _, rfl, .inl rfl⟩
+      | index n => simp [code] at ha; subst ha; exact ⟨'[', _, rfl, .inr rfl⟩
+      | key k =>
+        cases k with
+        | int n => simp [code] at ha; subst ha; exact ⟨'[', _, rfl, .inr rfl⟩
+        | str s =>
+          simp only [code] at ha
+          split at ha
+          · cases ha; exact ⟨'[', _, rfl, .inr rfl⟩
+          · cases ha
+    · cases h
+
+/-- `parse_path` with enough fuel reads a printed path back, element by element. -/
+theorem parseFuel_pathStr (p : List Elem) (hok : ∀ e ∈ p, e.ok) :
+    ∀ (t : List Char) (fuel : Nat), pathStr p = .ok t → p.length ≤ fuel →
+      parseFuel fuel t = .ok (p.map Elem.toParsed) := by
+  induction p with
+  | nil =>
+    intro t fuel h _
+    simp [pathStr] at h; subst h
+    cases fuel <;> rfl
+  | cons e r ih =>
+    intro t fuel h hf
+    simp only [pathStr] at h
+    split at h
+    · rename_i a b ha hb
+      cases h
+      obtain ⟨fuel', rfl⟩ : ∃ f, fuel = f + 1 := ⟨fuel - 1, by simp at hf; omega⟩
+      have hs := scan_code e a b ha (hok e (by simp)) (pathStr_boundary r b hb)
+      have hne : a ++ b ≠ [] := by
+        cases e with
+        | attr n => simp [code] at ha; subst ha; simp
+        | index n => simp [code] at ha; subst ha; simp
+        | key k =>
+          cases k with
+          | int n => simp [code] at ha; subst ha; simp
+          | str s =>
+            simp only [code] at ha
+            split at ha
+            · cases ha; simp
+            · cases ha
+      obtain ⟨c, cs, hcs⟩ := List.exists_cons_of_ne_nil hne
+      rw [hcs] at hs ⊢
+      simp only [parseFuel, hs]
+      rw [ih (fun x hx => hok x (by simp [hx])) b fuel' hb (by simp at hf; omega)]
+      rfl
+    · cases h
+
+theorem pathStr_length (p : List Elem) (t : List Char) (h : pathStr p = .ok t) : p.length ≤ t.length := by
+  induction p generalizing t with
+  | nil => simp
+  | cons e r ih =>
+    simp only [pathStr] at h
+    split at h
+    · rename_i a b ha hb
+      cases h
+      have := ih b hb
+      have ha1 : 1 ≤ a.length := by
+        cases e with
+        | attr n => simp [code] at ha; subst ha; simp
+        | index n => simp [code] at ha; subst ha; simp
+        | key k =>
+          cases k with
+          | int n => simp [code] at ha; subst ha; simp
+          | str s =>
+            simp only [code] at ha
+            split at ha
+            · cases ha; simp
+            · cases ha
+      simp only [List.length_cons, List.length_append]
+      omega
+    · cases h
+
+/-- Within the property's scope every path can be printed (the model never answers
+    `unsupported` there): the hypotheses of the theorems below are satisfiable. -/
+theorem C18_printable (p : List Elem) (hok : ∀ e ∈ p, e.ok) : ∃ t, pathStr p = .ok t := by
+  induction p with
+  | nil => exact ⟨[], rfl⟩
+  | cons e r ih =>
+    obtain ⟨a, ha⟩ := code_ok e (hok e (by simp))
+    obtain ⟨b, hb⟩ := ih (fun x hx => hok x (by simp [hx]))
+    exact ⟨a ++ b, by simp [pathStr, ha, hb]⟩
+
+/-- **Printed paths resolve**: the text `printing._path_str` prints for a non-empty path
+    (attribute names that are words, quote-free string keys, non-negative int keys and list
+    indices) is accepted by the override parser `absl_flags.utils.parse_path`, and parses to the
+    very same sequence of steps (an `Index` comes back as the `Key` of the same int, which
+    subscripts a list the same way). -/
+theorem C18_printed_path_parses_back (p : List Elem) (t : List Char) (hne : p ≠ [])
+    (hok : ∀ e ∈ p, e.ok) (h : printed p = .ok t) :
+    parsePath (reDot t) = .ok (p.map Elem.toParsed) := by
+  obtain ⟨e, r, rfl⟩ := List.exists_cons_of_ne_nil hne
+  obtain ⟨full, hfull⟩ := C18_printable (e :: r) hok
+  have main : parsePath full = .ok ((e :: r).map Elem.toParsed) :=
+    parseFuel_pathStr (e :: r) hok full full.length hfull (pathStr_length _ _ hfull)
+  have hredot : reDot t = full := by
+    unfold printed at h
+    rw [hfull] at h
+    simp only [Res.ok.injEq] at h
+    subst h
+    cases e with
+    | attr n =>
+      obtain ⟨hn, hw⟩ := hok (.attr n) (by simp)
+      obtain ⟨c, cs, rfl⟩ := List.exists_cons_of_ne_nil hn
+      simp only [pathStr, code] at hfull
+      split at hfull
+      · rename_i a b ha hb
+        cases ha; cases hfull
+        have hc := hw c (by simp)
+        have h1 : c ≠ '[' := by intro e; subst e; revert hc; decide
+        have h2 : c ≠ '.' := by intro e; subst e; revert hc; decide
+        simp only [startsWithAttr, if_true, List.cons_append, List.tail_cons]
+        unfold reDot
+        split
+        · rename_i heq; cases heq; exact absurd rfl h1
+        · rename_i heq; cases heq; exact absurd rfl h2
+        · rfl
+      · cases hfull
+    | index n =>
+      simp only [pathStr, code] at hfull
+      split at hfull
+      · rename_i a b ha hb; cases ha; cases hfull; rfl
+      · cases hfull
+    | key k =>
+      have hb := pathStr_boundary _ _ hfull
+      rcases hb with hb | ⟨c, r', hb, hc⟩
+      · have := pathStr_length _ _ hfull
+        rw [hb] at this; simp at this
+      · subst hb
+        have : c = '[' := by
+          simp only [pathStr] at hfull
+          split at hfull
+          · rename_i a b ha hb2
+            cases k with
+            | int n => simp [code] at ha; subst ha; simp at hfull; exact hfull.1.symm
+            | str s =>
+              simp only [code] at ha
+              split at ha
+              · cases ha; simp at hfull; exact hfull.1.symm
+              · cases ha
+          · cases hfull
+        subst this
+        rfl
+  rw [hredot]
+  exact main
+
+/-- **A printed path names one position**: two paths within scope that print the same text are
+    the same sequence of steps - no leaf can be listed under a text that resolves to another. -/
+theorem C18_printed_path_injective (p q : List Elem) (t : List Char) (hp : p ≠ []) (hq : q ≠ [])
+    (okp : ∀ e ∈ p, e.ok) (okq : ∀ e ∈ q, e.ok) (h1 : printed p = .ok t) (h2 : printed q = .ok t) :
+    p.map Elem.toParsed = q.map Elem.toParsed := by
+  have a := C18_printed_path_parses_back p t hp okp h1
+  have b := C18_printed_path_parses_back q t hq okq h2
+  rw [a] at b
+  exact (Res.ok.inj b)
+
+theorem code_no_eq (e : Elem) (a : List Char) (ha : code e = .ok a) (hok : e.ok) (hne : e.noEq) :
+    ∀ x ∈ a, x ≠ '=' := by
+  have int_case : ∀ n, ∀ x ∈ ('[' :: natRepr n ++ [']']), x ≠ '=' := by
+    intro n x hx
+    simp only [List.cons_append, List.mem_cons, List.mem_append, List.not_mem_nil, or_false] at hx
+    rcases hx with rfl | hx | rfl
+    · decide
+    · exact (digit_facts x (natRepr_digits n x hx)).2.2.1
+    · decide
+  match e, hok, hne with
+  | .attr n, ⟨_, hw⟩, _ =>
+    simp only [code] at ha; cases ha
+    intro x hx
+    simp only [List.mem_cons] at hx
+    rcases hx with rfl | hx
+    · decide
+    · exact word_ne_eq x (hw x hx)
+  | .index n, _, _ => simp only [code] at ha; cases ha; exact int_case n
+  | .key (.int n), _, _ => simp only [code] at ha; cases ha; exact int_case n
+  | .key (.str s), _, hs =>
+    simp only [code] at ha
+    split at ha
+    · rename_i x hx
+      cases ha
+      intro y hy
+      simp only [List.cons_append, List.mem_cons, List.mem_append, List.not_mem_nil, or_false] at hy
+      rcases hy with rfl | rfl | hy | rfl | rfl
+      · decide
+      · decide
+      · exact escape_no_eq s x hx hs y hy
+      · decide
+      · decide
+    · cases ha
+
+theorem pathStr_no_eq (p : List Elem) (t : List Char) (h : pathStr p = .ok t)
+    (hok : ∀ e ∈ p, e.ok) (hne : ∀ e ∈ p, e.noEq) : ∀ x ∈ t, x ≠ '=' := by
+  induction p generalizing t with
+  | nil => simp [pathStr] at h; subst h; simp
+  | cons e r ih =>
+    simp only [pathStr] at h
+    split at h
+    · rename_i a b ha hb
+      cases h
+      intro x hx
+      rcases List.mem_append.mp hx with h1 | h1
+      · exact code_no_eq e a ha (hok e (by simp)) (hne e (by simp)) x h1
+      · exact ih b hb (fun y hy => hok y (by simp [hy])) (fun y hy => hne y (by simp [hy])) x h1
+    · cases h
+
+/-- **The override is split where it was joined**: for a printed path whose string keys are
+    `=`-free, `set_value`'s `assignment.split('=', 1)` of `path=value` returns exactly the
+    printed path and the value text, whatever the value text contains (further `=` included). -/
+theorem C18_assignment_splits (p : List Elem) (t v : List Char) (hok : ∀ e ∈ p, e.ok)
+    (hne : ∀ e ∈ p, e.noEq) (h : printed p = .ok t) : splitAssign (t ++ '=' :: v) = some (t, v) := by
+  have hfree : ∀ x ∈ t, x ≠ '=' := by
+    unfold printed at h
+    split at h
+    · rename_i s hs
+      have hs_free := pathStr_no_eq p s hs hok hne
+      simp only [Res.ok.injEq] at h
+      subst h
+      intro x hx
+      split at hx
+      · exact hs_free x (List.mem_of_mem_tail hx)
+      · exact hs_free x hx
+    · rename_i hnot
+      exact absurd h (hnot t)
+  have := span_run (· != '=') t ('=' :: v) (fun c hc => by simpa using hfree c hc)
+    (.inr ⟨'=', v, rfl, by simp⟩)
+  simp [splitAssign, this]
+
+/-- Non-vacuity: a path with every kind of element is within scope, prints, and parses back:
+    `p[10]['k 1\\x'][0].q_1`. -/
+example :
+    let p : List Elem := [.attr ['p'], .index 10, .key (.str ['k', ' ', '1', '\\', 'x']), .key (.int 0),
+                          .attr ['q', '_', '1']]
+    (∀ e ∈ p, e.ok) ∧ (∀ e ∈ p, e.noEq) ∧
+      printed p = .ok ['p', '[', '1', '0', ']', '[', '\'', 'k', ' ', '1', '\\', '\\', 'x', '\'', ']',
+                       '[', '0', ']', '.', 'q', '_', '1'] := by
+  refine ⟨?_, ?_, ?_⟩
+  · intro e he
+    simp only [List.mem_cons, List.not_mem_nil, or_false] at he
+    rcases he with rfl | rfl | rfl | rfl | rfl
+    · exact ⟨by decide, by decide⟩
+    · trivial
+    · intro c hc
+      unfold keyChar
+      revert c; decide
+    · trivial
+    · exact ⟨by decide, by decide⟩
+  · intro e he
+    simp only [List.mem_cons, List.not_mem_nil, or_false] at he
+    rcases he with rfl | rfl | rfl | rfl | rfl <;> first | trivial | (intro c hc; revert c; decide)
+  · have h10 : natRepr 10 = ['1', '0'] := by rw [natRepr]; simp; rw [natRepr]; simp [digitChar]
+    have h0 : natRepr 0 = ['0'] := by rw [natRepr]; simp [digitChar]
+    simp [printed, pathStr, code, escape, escapeChar, plainChar, startsWithAttr, h10, h0]
+
+/-- Outside the scope the guarantee genuinely fails (why the property restricts keys): a key
+    containing a quote prints to a text, `['it's']`, that does not parse back. -/
+example : parsePath ['[', '\'', 'i', 't', '\'', 's', '\'', ']'] = .error := by decide
+
+/-- Leading zeros: `[007]` is rejected (`literal_eval` raises), `[00]` is index 0. -/
+example : parsePath ['[', '0', '0', '7', ']'] = .error ∧
+    parsePath ['[', '0', '0', ']'] = .ok [.key (.int 0)] := by
+  constructor <;> decide
 
 end Fiddle
